@@ -55,12 +55,14 @@ CLAIMED = {
       CONC_NOTE, "casim-conc"),
   "C16": C("exploration", "3 C16 + 7", "deterministic simulation: forged snapshots / log records / settings between two opens (F-forge), counting allocator",
       "Storage-facing part only: every key/hash/size the API writes round-trips through the disk in all other checks; here canonical snapshots of arbitrary entries (extreme sizes, 0..200 entries, all key types) must load exactly and be written back identically; truncations, boundary counts/lengths, bit flips, trailing bytes, keys invalid for the key type, WAL records with valid checksums over malformed payloads, forged version/length fields, an end marker in the middle and malformed settings files must give Ok or Err without panic; no single allocation above 2x input + 64 KiB while decoding. The pure for-all-values round-trip law is not a simulation target (DESIGN.md 7)."),
-  "C17": C("exploration", "3 C17", "deterministic simulation: short-read injection over an enumerated (L,start,end) cube",
-      "get_range is a pread loop: all (start,end) in [0,L+2]^2 for L=0..6 exhaustively, L around buffer sizes with boundary bounds up to 2^64-1, half the runs with every pread shortened; results must equal the slice, inverted ranges rejected exactly when start < L, readers drain to L bytes."),
+  "C17": C("exploration", "3 C17", "deterministic simulation: short-read injection over an enumerated (L,start,end) cube + range reads racing overwrites under seeded schedules",
+      "get_range is a pread loop: all (start,end) in [0,L+2]^2 for L=0..6 exhaustively, L around buffer sizes and up to 2.5 MB with boundary bounds up to 2^64-1, half the runs with every pread shortened; results must equal the slice, inverted ranges rejected exactly when start < L, readers drain to L bytes, no single allocation above L + 64 KiB. Concurrent part: range reads racing overwrites that change the length must return the slice of one value the key held.",
+      SEQ_NOTE + " Concurrent part: " + CONC_NOTE, "casim-seq"),
   "C18": C("exploration", "3 C18", "deterministic simulation: chunking enumeration + short-write/EINTR injection on the staging stream",
       "All 2^(len-1) chunkings for len<=5 (plus empty-chunk variants), random chunkings incl. > 8 KiB chunks under short writes and EINTR; committed hash == blake3(content), size == len, file at the checker-computed path with exact bytes, no other file. Path bijection only on hashes that occur (pure law: see DESIGN.md 7)."),
-  "C19": C("exploration", "3 C19", "deterministic simulation: rejected opens inside histories, byte-identical directory image and call-trace check",
-      "Opens with a different num_ops_per_wal, a forged stored version, or a flipped pre-create choice at random positions of populated histories; rejected opens must leave SimDisk byte-identical and issue no mutating call but opening LOCK; the next correct open shows the model."),
+  "C19": C("exploration", "3 C19", "deterministic simulation: rejected opens inside histories (byte-identical image + call trace), crash inside the pre-created tree, racing first opens under seeded schedules",
+      "Opens with a different num_ops_per_wal, a forged stored version, or a flipped pre-create choice at random positions of populated histories; rejected opens must leave SimDisk byte-identical and issue no mutating call but opening LOCK; the next correct open shows the model. A run class kills first-time initialisation with pre_create_cas_dirs inside the 65 792 mkdirs and then uses the recovered store. Concurrent part: tasks race first opens of a fresh directory with different segment sizes; only the value of the first successful open is accepted afterwards.",
+      SEQ_NOTE + " Concurrent part: " + CONC_NOTE, "casim-seq"),
   "C20": C("exploration", "3 C20", "deterministic simulation: on-disk well-formedness monitor with an independent decoder after every mutating call",
       "After every mutating call that touches the snapshot or a segment, in plain histories, restarts and crash-image recoveries: complete checksummed records, at most one trailing end marker, strictly increasing versions within segment ranges, never reused across restarts, snapshot decodable and monotone, snapshot+log equal to the acknowledged or in-flight state."),
 }
@@ -100,7 +102,7 @@ def main():
         },
         "engines": [
             {"name": "casim-seq", "path": "engine/casim", "serves_properties": [c["property_id"] for c in checks if c["engine"] == "casim-seq"], "kind_free_text": "deterministic simulation, sequential build: real sources + libc interposer + SimDisk (crash/power images, fault plan), one simulated client"},
-            {"name": "casim-conc", "path": "engine/casim (feature conc) + engine/plshim", "serves_properties": [c["property_id"] for c in checks if c["engine"] != "casim-seq"] + ["C06", "C07", "C13"], "kind_free_text": "deterministic simulation, concurrent build: shuttle coroutines under the harness's seeded scheduler, parking_lot shim, every lock op and libc call a scheduling point"},
+            {"name": "casim-conc", "path": "engine/casim (feature conc) + engine/plshim", "serves_properties": sorted(set([c["property_id"] for c in checks if c["engine"] != "casim-seq"] + ["C06", "C07", "C08", "C11", "C13", "C17", "C19"])), "kind_free_text": "deterministic simulation, concurrent build: shuttle coroutines under the harness's seeded scheduler, parking_lot shim, every lock op and libc call a scheduling point"},
         ],
         "checks": checks,
         "not_applicable": na,
